@@ -438,6 +438,25 @@ def eval_add(specs):
                          f"{how}: ({txt}).list() = {got}; concatenation of list semantics = {exp}"))
         if it != got:
             viol.append(({"kind": "iter-mismatch", "op": "add", "how": how}, f"{how}: iteration and list() of {txt} differ"))
+        # filtered_sweep of the sum = the members' own filtered sweeps one after the other (whatever the nesting of the sum)
+        # (keys = item keys that occur in the combinations of EVERY member: with partial dims an item key may be absent)
+        per = [[set(c) for c in s_.list()] for s_ in sw]
+        common = None
+        if all(per):
+            common = set.intersection(*(set.intersection(*p_) for p_ in per))
+        keys0 = [k for k, _ in specs[0]["items"] if common and k in common]
+        if keys0:
+            for ks in ([keys0[0]], keys0):
+                try:
+                    fg = [canon(c) for c in m.filtered_sweep(tuple(ks)).list()]
+                    fw = [canon(c) for s_ in sw for c in s_.filtered_sweep(tuple(ks)).list()]
+                except Exception as e:  # noqa: BLE001
+                    viol.append((_exc(e, op="add", how=how, step="filtered_sweep"), f"{how}: ({txt}).filtered_sweep({ks}) raised {e!r}"))
+                    break
+                if fg != fw:
+                    viol.append(({"kind": "value-mismatch", "op": "add", "how": how, "against": "members-filtered"},
+                                 f"{how}: ({txt}).filtered_sweep({ks}).list() = {fg[:8]} is not the members' filtered sweeps one after the other {fw[:8]}"))
+                    break
         if n != len(got):
             viol.append(({"kind": "len-mismatch", "op": "add", "how": how, "empty_items": empty_op},
                          f"{how}: len({txt}) == {n} but list() has {len(got)} combinations"))
@@ -833,7 +852,7 @@ def run_unit(unit):  # noqa: C901, PLR0912, PLR0915
     elif kind == "add3":
         p1 = pool_small(("a", "b"), 1) + [{"items": [], "dims": None}]
         p2 = pool_small(("c", "d"), 1) + pool_small(("a", "b"), 0)
-        p3 = pool_decorated(("e", "f"), 0)
+        p3 = pool_decorated(("e", "f"), 0) + pool_small(("a", "b"), 0)[:2]
         for s1 in p1:
             for s2 in p2:
                 for s3 in p3:
